@@ -159,11 +159,11 @@ func TestVerifC14(t *testing.T) {
 		for i := 0; i < blocks; i++ {
 			a.step()
 			all[0].sample(c, a)
-			act := a.scheduleAction()
+			act := cpScheduleAction(a)
 			c.Count("schedule.generator."+act, 1)
 			all[0].sample(c, a)
 		}
-		a.flush()
+		cpFlush(a)
 		a.settle()
 		all[0].sample(c, a)
 		all[0].files(c, a)
@@ -199,21 +199,21 @@ func TestVerifC14(t *testing.T) {
 				o.sample(c, b)
 				switch pol {
 				case "every":
-					b.flush()
+					cpFlush(b)
 				case "batch":
 					if burst == 0 {
 						burst = rv.Range(6, 20)
 					}
 					burst--
 					if burst == 0 {
-						b.flush()
+						cpFlush(b)
 					}
 				case "syncer":
 					b.settle()
 				case "restart":
 					b.settle()
 					if rv.Chance(1, 5) {
-						b.flush()
+						cpFlush(b)
 					}
 					if f, ok := cpPendingFirstStage(b); ok && rv.Chance(1, 2) {
 						o.sample(c, b)
@@ -226,11 +226,11 @@ func TestVerifC14(t *testing.T) {
 						b.tr("restart while first stage %d waits for its second stage", f)
 					}
 				case "prng":
-					c.Count("schedule.replay."+b.scheduleAction(), 1)
+					c.Count("schedule.replay."+cpScheduleAction(b), 1)
 				}
 				o.sample(c, b)
 			}
-			b.flush()
+			cpFlush(b)
 			b.settle()
 			o.sample(c, b)
 			o.files(c, b)
